@@ -262,6 +262,8 @@ def oracle_c18(lhs, obs, group=None):
                 return f"call {i}: send transmitted {data[:24]}… from {frm} to {to} over {t}, expected the built message from {local} to {p[4]} over {tr}"
             if p[2] == "0":
                 origin[int(p[1], 16)] = (built, p[4])
+        elif p[0] == "S" and p[2] != "0":
+            return f"call {i}: an indication/response handed to send was not transmitted ({head})"
         elif p[0] == "P" and head.startswith("tx:"):
             f = head.split(":")
             tid = int(f[1], 16) if f[1] != "short" else None
